@@ -61,7 +61,17 @@ def gen_C08(rng, tier):
 def coq_term_any(case):
     return G.coq_term_history(case) if case.split()[0] in ('D', 'U') else G.coq_term_mw(case)
 
+def gen_C03(rng, tier):
+    kinds = ['int', 'int', 'str', 'pt'] if tier == 'quick' else ['int', 'long', 'dbl', 'chr', 'str', 'pt']
+    n = 2500 if tier == 'quick' else 30000
+    return G.histories(rng, n, ['D', 'U'], kinds, maxops=30 if tier == 'quick' else 40, reject_p=0.0)
+
 PROPS = {
+ 'C03': dict(harness='classes', gen=gen_C03, coq_term=G.coq_term_history, histogram=G.op_histogram, coq_imports='Base DirectedModel DirectedSpec UndirectedModel UndirectedSpec Instances',
+             segments=[0, 4, 5], nontrivial=lambda c, I: _steps_with_edges(c, I) and any(k in c for k in (' R ', ' V ', ' SL', ' CL')), model_name='DirectedModel/UndirectedModel label store',
+             rule='seeded random histories on labelled directed and undirected graphs (int, std::string, struct labels; thorough adds long, double, char): creation, setEdgeLabel, '
+                  're-adding present edges under another label, every kind of removal, re-creation; after every call getEdgeLabel (throwing and non-throwing) for ALL pairs in both '
+                  'orientations and hasEdge(i,j,l) over a label alphabet are compared with the Coq model and the spec; non-trivial = reaches >=1 edge and contains a removal'),
  'C08': dict(harness=['classes', 'multi'], gen=gen_C08, coq_term=coq_term_any, histogram=G.op_histogram, coq_imports=MW_IMPORTS,
              segments={'D': [0, 6, 7, 8, 9], 'U': [0, 6, 7, 8, 9], 'DM': [0, 5, 6, 7, 8], 'UM': [0, 5, 6, 7, 8], 'DW': [0, 5, 6, 7, 8, 9], 'UW': [0, 5, 6, 7, 8, 9]},
              nontrivial=_steps_with_edges, model_name='DirectedModel.iterate / UndirectedModel.u_iterate (cursor model) and the observers built on them', shrink=None,
